@@ -132,7 +132,7 @@ class LedgerMonitor(hist.Monitor):
 
 
 def n_cases(tier):
-    return 700 if tier == "quick" else 50000
+    return 600 if tier == "quick" else 30000
 
 
 def gen_case(rng, tier, index):
